@@ -62,6 +62,12 @@ add("C19", "jaxpr2smt",
     "floats as reals; tanh/atanh/sqrt uninterpreted with the axioms named in each obligation; 'statistics of everything seen' claimed as the merge law relative to the wrappers' 1e-4 pseudo-count prior; fresh-init auto-reset passes through modulo the advanced rng",
     "DESIGN.md §6 C19")
 
+add("C20", "jaxpr2smt",
+    "bounded symbolic execution of the jaxprs of Policy.get_action and of the training-time evaluation path (NormalizeVec.normalize, ActorCritic.apply, pi.mean/sample, SquashState.unsquash) on the same symbolic weights, scalings and observation; z3 decides equality of the action terms; counterexamples re-checked numerically on the real functions",
+    "For every weight/bias/log-std/scaling/observation value the exported policy's action equals the trained actor's deterministic action, and with an rng its sample equals the actor's Gaussian sample for the same key; PPOResult.policy extracts the right leaves. Enumerated: depth 1-2(3), width 1-2(3), 4 activations, squash on/off, normalisation on/off.",
+    "floats as reals; transcendental activations uninterpreted (agreement must be structural); normal sampler = uninterpreted function of the key; state-dependent std outside the property",
+    "DESIGN.md §6 C20")
+
 def main():
     checks = []
     for pid in sorted(CHECKS):
